@@ -217,12 +217,27 @@ func (g *Gen) run() (err error) {
 	// ghost names bound to results of particular calls (at call f#k: bind g = result)
 	if g.c != nil {
 		ord := map[string]int{}
-		for _, b := range fn.Blocks {
-			for _, in := range b.Instrs {
-				ci, ok := in.(ssa.CallInstruction)
-				if !ok {
-					continue
+		// calls in source order; a helper that is executed in place of its call (inline.go)
+		// contributes its calls at that point
+		var calls []ssa.CallInstruction
+		var walk func(f *ssa.Function, depth int)
+		walk = func(f *ssa.Function, depth int) {
+			for _, b := range f.Blocks {
+				for _, in := range b.Instrs {
+					ci, ok := in.(ssa.CallInstruction)
+					if !ok {
+						continue
+					}
+					calls = append(calls, ci)
+					if hf, ok := ci.Common().Value.(*ssa.Function); ok && depth < maxInlineDepth && g.calleeContract(ci.Common()) == nil && g.inlinable(hf) {
+						walk(hf, depth+1)
+					}
 				}
+			}
+		}
+		walk(fn, 0)
+		for _, ci := range calls {
+			{
 				cc := ci.Common()
 				if _, isB := cc.Value.(*ssa.Builtin); isB {
 					continue
